@@ -221,6 +221,29 @@ theorem C02_exists_iff_nonempty (M : GradMedium) (zf zt rh : ℝ)
   rcases C02_expected_table (M.contains zf) (M.contains zt) rh (M.dmax zl zh) (M.imax zl zh) with h | h | h <;>
     simp [h, existsOf, gradSolutions, h0, h1, h2]
 
+/-- the number of reported solutions is the number of expected ones whatever the VALUES of the launch angles are —
+in particular a launch angle of exactly `0` (an exactly vertical pair, `rho = 0`) is a solution like any other -/
+theorem C02_count_independent_of_angle_value (cf ct : Bool) (rh dmax imax a0 a1 a2 : ℝ) :
+    (gradSolutions (expectedSolutions cf ct rh dmax imax) (some a0) (some a1) (some a2)).length =
+      countOf (expectedSolutions cf ct rh dmax imax) := by
+  rcases C02_expected_table cf ct rh dmax imax with h | h | h <;> simp [h, gradSolutions, countOf]
+
+/-- exactly vertical pairs: `rho = 0` exactly when the endpoints share x and y; the launch angles `0` and `π` then
+give the directions straight up and straight down, at any azimuth -/
+theorem C02_vertical_pairs (p q : P3) (ph : ℝ) :
+    (rho p q = 0 ↔ (q.x = p.x ∧ q.y = p.y)) ∧
+    emitted 0 ph = ⟨0, 0, 1⟩ ∧ emitted Real.pi ph = ⟨0, 0, -1⟩ := by
+  refine ⟨?_, ?_, ?_⟩
+  · constructor
+    · intro h
+      have h0 : (q.x - p.x) * (q.x - p.x) + (q.y - p.y) * (q.y - p.y) ≤ 0 := by
+        simp only [rho, Rsqrt] at h; exact Real.sqrt_eq_zero'.mp h
+      constructor <;> nlinarith [mul_self_nonneg (q.x - p.x), mul_self_nonneg (q.y - p.y)]
+    · rintro ⟨hx, hy⟩
+      simp [rho, Rsqrt, hx, hy]
+  · simp [emitted, dirOf, Rsin, Rcos]
+  · simp [emitted, dirOf, Rsin, Rcos]
+
 /-! ## uniform ice (the repaired code: reflection points are offset by the source position) -/
 
 /-- a horizontal translation of both endpoints translates every point of every path … -/
@@ -388,3 +411,7 @@ example : uExists ⟨1.5, -100, 0, some 1, none⟩ ⟨0, 0, -30⟩ ⟨10, 0, -60
 example : let segs : List Seg := [⟨-30, 0, 40, 32⟩, ⟨0, -60, 70, 62⟩]
     (∀ s ∈ segs, 0 < s.n) ∧ (∀ s ∈ segs, (0 : ℝ) ≤ s.len) := by
   simp
+
+/-- hypotheses of `C02_reciprocity_beta`: a 30-degree launch from n = 1.78 seen from n = 1.5 -/
+example : (0 : ℝ) < 1.5 ∧ -1 ≤ Real.sin (Real.pi / 6) * 1.78 / 1.5 ∧ Real.sin (Real.pi / 6) * 1.78 / 1.5 ≤ 1 := by
+  rw [Real.sin_pi_div_six]; norm_num
